@@ -193,6 +193,18 @@ func (m *Machine) vocab(name string) (Intrinsic, bool) {
 			m.finishInline(it, rr, r)
 			return false
 		}, true
+	case "vStartAgo":
+		// vStartAgo(ns): a start time such that every later time.Since reports exactly ns (natively: now-ns, so
+		// that time.Since reports ns plus the few microseconds the call takes)
+		return func(m *Machine, wl *worklist, it *Item, fn *ssa.Function, args []Value, rr int) bool {
+			m.SinceFixed = args[0].(T)
+			m.Assumptions["time.Since(start) returns exactly the elapsed time the harness chose (vStartAgo); natively it is that time plus the duration of the call"] = true
+			tt := m.lookupType("time", "Time")
+			v := m.ZeroValue(tt).(StructV)
+			v.F[1] = m.Fresh("now", m.intSort())
+			m.finishInline(it, rr, v)
+			return false
+		}, true
 	case "vSincePositive":
 		return func(m *Machine, wl *worklist, it *Item, fn *ssa.Function, args []Value, rr int) bool {
 			m.SincePositive = true
